@@ -261,18 +261,23 @@ pub fn ilog2(span: &mut SpanBuilder) -> Result<Option<CodeBlock>, AssemblyError>
         MovUp2, U32split, MovUp2, U32split,
         // => [pow2_high, pow2_low, n_high, n_low, ilog2, ...]
 
-        // only one of the two halves in pow2 has a bit set, drop the other (9 cycles)
+        // only one of the two halves in pow2 has a bit set, drop the other (7 cycles)
         Dup1, Eqz, Dup0, MovDn3,
         // => [drop_low, pow2_high, pow2_low, drop_low, n_high, n_low, ilog2, ...]
-        CSwap, Drop, MovDn3, CSwap, Drop,
+        CSwap, Drop, MovDn3,
+        // => [drop_low, n_high, n_low, pow2_half, ilog2, ...]
+
+        // when the low halves are compared (drop_low = 0), the high half of n must be zero,
+        // i.e., n_high * drop_low = n_high (6 cycles)
+        Dup1, Dup1, Mul, Dup2, Eq, Assert(0),
+
+        // keep the half of n which corresponds to the non-zero half of pow2 (2 cycles)
+        CSwap, Drop,
         // => [n_half, pow2_half, ilog2, ...]
 
-        // set all bits to 1 lower than pow2_half (00010000 -> 00011111)
-        Swap, Pad, Incr, Incr, Mul, Pad, Incr, Neg, Add, 
-        // => [pow2_half * 2 - 1, n_half, ilog2, ...]
-        Dup1, U32and, 
-        // => [m, n_half, ilog2, ...] if ilog2 calculation was correct, m should be equal to n_half
-        Eq, Assert(0),
+        // the most significant bit of n_half must be the bit set in pow2_half, i.e.,
+        // pow2_half <= n_half < 2 * pow2_half, i.e., n_half / pow2_half = 1 (7 cycles)
+        Swap, U32div, Drop, Pad, Incr, Eq, Assert(0),
         // => [ilog2, ...]
     ];
 
